@@ -11,6 +11,9 @@ import CifModel.Basic
     * cif_value_clone                  (value.c)    — for character, number, unknown/na and (nested) list values,
                                                       with a fresh target (`*clone == NULL`)
     * cif_value_insert_element_at      (value.c)    — clone the element, grow the element array when full
+    * cif_value_set_element_at         (value.c)    — clone the element into the EXISTING target (`*clone != NULL`)
+    * cif_loop_get_names               (loop.c)     — cif_loop_get_names_internal(normalize = 0) on a stored loop:
+                                                      linked list of (node, string), then the array of strings
 
   into this event language.  Table values are not covered here (uthash's own out-of-memory behaviour is a recorded
   open finding, see known_findings.json, F31).  `failAt = 0` means no failure.
@@ -43,6 +46,7 @@ def freeAll (ids : List Nat) (s : St) : St := ids.foldl (fun s i => free i s) s
 def OK : Nat := 0
 def MEMORY_ERROR : Nat := 3
 def ERROR : Nat := 2
+def INVALID_HANDLE : Nat := 4
 
 -- ---------------------------------------------------------------------------------------------------------------
 -- dup_ustrings(dest, src) with n source strings (src != NULL)
@@ -175,5 +179,88 @@ def insertElement (failAt : Nat) (full : Bool) (elem : Shape) (s : St := {}) : N
       | (none, s'') => (MEMORY_ERROR, none, freeOwned o s'')      -- FAILURE_HANDLER(soft): cif_value_free(clone)
       | (some arr, s'') => (OK, some (o, some arr), s'')
     else (OK, some (o, none), s')
+
+-- ---------------------------------------------------------------------------------------------------------------
+-- cif_value_set_element_at(list, index, element) with element != NULL and element != the current target:
+-- `cif_value_clone(element, &target)` with a pre-existing target object (`*clone != NULL`)
+
+/-- `cif_value_clone` into an existing target: `cif_value_clean(*clone)` first (releases of the target's old, pre-existing
+    blocks: not events of the window), `to_free` stays NULL, so on failure the handler's `free(to_free)` releases nothing
+    and the target object itself survives.  Returns the ids of the blocks the target gained. -/
+def cloneExisting (failAt : Nat) : Shape → St → Option (List Nat) × St
+  | .scalar, s => (some [], s)
+  | .chr, s =>
+    match alloc failAt s with                                     -- cif_u_strdup(text)
+    | (none, s') => (none, s')
+    | (some t, s') => (some [t], s')
+  | .numb hasSu, s =>
+    match alloc failAt s with                                     -- text
+    | (none, s') => (none, s')
+    | (some t, s') =>
+      match alloc failAt s' with                                  -- digits
+      | (none, s'') => (none, free t s'')
+      | (some d, s'') =>
+        if hasSu then
+          match alloc failAt s'' with                             -- su_digits
+          | (none, s3) => (none, free t (free d s3))               -- FAILURE_HANDLER(su): digits, then text
+          | (some u, s3) => (some [t, d, u], s3)
+        else (some [t, d], s'')
+  | .lst elems, s =>
+    match alloc failAt s with                                     -- the element array
+    | (none, s') => (none, s')
+    | (some arr, s') =>
+      match cloneElems failAt elems [] s' with
+      | (some es, s'') => (some (arr :: Owned.idsList es), s'')
+      | (none, s'') => (none, free arr s'')                        -- cif_list_value_clean: elements (done by cloneElems), array
+
+/-- returns (result code, ids gained by the target element, final state) -/
+def setElement (failAt : Nat) (elem : Shape) (s : St := {}) : Nat × Option (List Nat) × St :=
+  match cloneExisting failAt elem s with
+  | (none, s') => (MEMORY_ERROR, none, s')
+  | (some g, s') => (OK, some g, s')
+
+-- ---------------------------------------------------------------------------------------------------------------
+-- cif_loop_get_names(loop, &names) = cif_loop_get_names_internal(loop, &names, CIF_FALSE) for a stored loop
+-- (loop_num ≥ 0) with n item names.  Only the library's own requests are events (SQLite's are not).
+
+/-- FAILURE_HANDLER(name): LL_FOREACH_SAFE from the head of the list (most recent row first): free(string); free(node) -/
+def freeNodes : List (Nat × Nat) → St → St
+  | [], s => s
+  | (nd, str) :: rest, s => freeNodes rest (free nd (free str s))
+
+/-- the success path's LL_FOREACH_SAFE: the string moves into the array, free(node) -/
+def freeNodeObjs : List (Nat × Nat) → St → St
+  | [], s => s
+  | (nd, _) :: rest, s => freeNodeObjs rest (free nd s)
+
+/-- the `SQLITE_ROW` iterations; `nodes` = the list built so far (LL_PREPEND: most recent first) as (node, string).
+    `fixed = false` is the code AS IT IS: when GET_COLUMN_STRING's malloc fails it jumps to FAILURE_HANDLER(name), but
+    the fresh node has not been prepended yet and the handler re-uses the variable `next_name` as its cursor, so the node
+    is never released (open finding F31 get_names/…/leak).  `fixed = true` releases it before the jump. -/
+def namesRows (fixed : Bool) (failAt : Nat) : Nat → List (Nat × Nat) → St → Option (List (Nat × Nat)) × St
+  | 0, nodes, s => (some nodes, s)
+  | n + 1, nodes, s =>
+    match alloc failAt s with                                     -- malloc(sizeof(string_element_tp))
+    | (none, s') => (none, freeNodes nodes s')                     -- SET_RESULT; break; falls into FAILURE_HANDLER(name)
+    | (some nd, s') =>
+      match alloc failAt s' with                                  -- GET_COLUMN_STRING: malloc(value_bytes + 2)
+      | (none, s'') => (none, freeNodes nodes (if fixed then free nd s'' else s''))
+      | (some str, s'') => namesRows fixed failAt n ((nd, str) :: nodes) s''
+
+/-- returns (result code, ids owned by the caller afterwards, final state) -/
+def getNamesGen (fixed : Bool) (failAt : Nat) (n : Nat) (s : St := {}) : Nat × List Nat × St :=
+  match namesRows fixed failAt n [] s with
+  | (none, s') => (MEMORY_ERROR, [], s')
+  | (some nodes, s') =>
+    if n = 0 then (INVALID_HANDLE, [], s')                        -- name_count <= 0: FAIL(name, …) with an empty list
+    else
+      match alloc failAt s' with                                  -- malloc(sizeof(UChar *) * (name_count + 1))
+      | (none, s'') => (MEMORY_ERROR, [], freeNodes nodes s'')     -- break; FAILURE_HANDLER(name)
+      | (some arr, s'') => (OK, arr :: nodes.map (·.2), freeNodeObjs nodes s'')
+
+/-- the code as it is (leaks one list node when a string allocation fails) -/
+def getNamesPinned (failAt : Nat) (n : Nat) (s : St := {}) : Nat × List Nat × St := getNamesGen false failAt n s
+/-- with the one-line repair (`free(next_name)` before jumping to the handler) -/
+def getNames (failAt : Nat) (n : Nat) (s : St := {}) : Nat × List Nat × St := getNamesGen true failAt n s
 
 end CifModel.Model.Ladder
